@@ -77,6 +77,7 @@ func checkC15(p *Prog, c *Check) {
 	}
 	c.Floor("C15.syncers", nSync, 3)
 	c15Ranges(p, c)
+	c15Narrowing(p, c)
 	for _, q := range []struct{ pkg, name, frag string }{
 		{"keyperimpl/shutterservice/database", "deleteIdentityRegisteredEventsFromBlockNumber", "where block_number >= $1"},
 		{"keyperimpl/shutterservice/database", "deleteEventTriggerRegisteredEventsFromBlockNumber", "where block_number >= $1"},
@@ -511,4 +512,149 @@ func c15Ranges(p *Prog, c *Check) {
 			c.Info("%s: %s calls GetSyncRanges(start,end) %s its own start<=end guard", rule, shortFn(sfn), map[bool]string{true: "with", false: "without"}[ok])
 		}
 	}
+}
+
+// c15Narrowing: stored columns equal the chain's values only if a value is never narrowed out of its
+// range. The instances are the event fields whose range the code itself doubts (each has a range
+// check today); confirmed by reading and frozen here: the check must be the one that matches the
+// narrowing used when the row is written (uint64 → int64 needs ≤ MaxInt64; big.Int.Int64() needs
+// IsInt64(), not merely IsUint64()), must guard every event that is passed on, and the insert must be
+// fed by the filter's result.
+func c15Narrowing(p *Prog, c *Check) {
+	rule := "C15-R6"
+	type inst struct {
+		syncer, filter, insert string
+		guards                 []string // patterns over $ev
+	}
+	maxI64 := "9223372036854775807"
+	table := []inst{
+		{"keyperimpl/gnosis.SequencerSyncer", "filterEvents", "insertTransactionSubmittedEvents",
+			[]string{"$ev.Eon <= " + maxI64, "IsInt64($ev.GasLimit) == true"}},
+		{"keyperimpl/shutterservice.RegistrySyncer", "filterEvents", "insertIdentityRegisteredEvents",
+			[]string{"$ev.Eon <= " + maxI64}},
+	}
+	n := 0
+	for _, it := range table {
+		ff, err := p.Func(it.syncer + "." + it.filter)
+		if !c.Must(err) {
+			continue
+		}
+		c.Analysed(shortFn(ff))
+		fi := p.Info(ff)
+		// every element appended to the returned slice is guarded
+		apps := 0
+		for _, b := range ff.Blocks {
+			for _, in := range b.Instrs {
+				call, ok := in.(*ssa.Call)
+				if !ok {
+					continue
+				}
+				vals, ok := appendedValues(call)
+				if !ok || len(vals) != 1 {
+					continue
+				}
+				// only appends of elements of the input slice
+				if !ParsePat("$in[_]").Match(fi.T(vals[0]), Binds{"in": fi.T(ff.Params[1])}) {
+					continue
+				}
+				apps++
+				n++
+				c.Guard(p, rule, fmt.Sprintf("%s:%s:pass#%d", it.syncer, it.filter, apps), call, "event passed on to the insert", Binds{"ev": fi.T(vals[0])}, it.guards...)
+			}
+		}
+		if apps == 0 {
+			c.Fail(rule, it.syncer+":"+it.filter+":shape", p.Rel(ff.Pos()), shortFn(ff), "range filter", "the filter does not pass on elements of its input by appending them")
+		}
+		// the narrowing in the insert is the one the guard covers
+		inf, err := p.Func(it.syncer + "." + it.insert)
+		if c.Must(err) {
+			ifi := p.Info(inf)
+			c.Analysed(shortFn(inf))
+			okN := true
+			why := ""
+			for _, b := range inf.Blocks {
+				for _, in := range b.Instrs {
+					ci, isC := in.(ssa.CallInstruction)
+					if !isC {
+						continue
+					}
+					nm := callName(ci)
+					if nm == "(*math/big.Int).Uint64" || nm == "(*math/big.Int).Int64" {
+						recv := ifi.T(ci.Common().Args[0])
+						want := map[string]string{"(*math/big.Int).Int64": "IsInt64", "(*math/big.Int).Uint64": "IsUint64"}[nm]
+						covered := false
+						for _, g := range it.guards {
+							if strings.HasPrefix(g, want+"($ev.") && strings.HasSuffix(recv.s, "."+strings.TrimSuffix(strings.TrimPrefix(g, want+"($ev."), ") == true")) {
+								covered = true
+							}
+						}
+						// a value only logged needs no guard
+						onlyLogged := true
+						if v := ci.Value(); v != nil {
+							for _, r := range *v.Referrers() {
+								if rc, isRC := r.(ssa.CallInstruction); !isRC || !isSinkOnly(callName(rc)) {
+									if _, isD := r.(*ssa.DebugRef); !isD {
+										onlyLogged = false
+									}
+								}
+							}
+						}
+						if !covered && !onlyLogged {
+							okN = false
+							why = "the row is written with " + shortCallee(nm) + "(" + recv.s + "), which the filter's range check does not cover"
+						}
+					}
+				}
+			}
+			c.Result(okN, rule, it.syncer+":"+it.insert+":narrowing", p.Rel(inf.Pos()), shortFn(inf), "big.Int narrowing in the insert", why, "covered by the filter's checks")
+		}
+		// syncRange hands the filter's result to the insert
+		if sr, err := p.Func(it.syncer + ".syncRange"); c.Must(err) {
+			okL := false
+			for _, f := range withClosures(sr) {
+				sfi := p.Info(f)
+				for _, ci := range callsTo(f, it.insert) {
+					arg := sfi.T(ci.Common().Args[len(ci.Common().Args)-1]).freeToParams()
+					if ParsePat(it.filter + "(_, _)").Match(arg, Binds{}) {
+						okL = true
+					}
+				}
+			}
+			c.Result(okL, rule, it.syncer+":syncRange:filtered", p.Rel(sr.Pos()), shortFn(sr), "events handed to the insert", "the events written are not the range filter's output", it.insert+"(…, "+it.filter+"(events))")
+		}
+	}
+	// the event-trigger registration processor: wherever the row is written (ProcessEvents or a helper),
+	// the checks guard it (in that function or its callers, also through a predicate helper's summary)
+	if _, err := p.Func("keyperimpl/shutterservice.EventTriggerRegisteredEventProcessor.ProcessEvents"); c.Must(err) {
+		k := 0
+		for _, f := range p.Funcs {
+			if relPkg(fnPkgPath(f)) != "keyperimpl/shutterservice" || isTestScaffold(f) {
+				continue
+			}
+			fi := p.Info(f)
+			for _, ci := range callsTo(f, "InsertEventTriggerRegisteredEvent") {
+				call, isCall := ci.(*ssa.Call)
+				if !isCall {
+					continue
+				}
+				k++
+				key := fmt.Sprintf("EventTriggerRegistered:insert#%d", k)
+				c.Analysed(shortFn(f))
+				flds := fi.structLitFields(ci.Common().Args[len(ci.Common().Args)-1])
+				if flds == nil || flds["Eon"] == nil {
+					c.Fail(rule, key, p.siteOf(ci), shortFn(f), "inserted row", "row is not a local literal")
+					continue
+				}
+				b := Binds{}
+				if !ParsePat("$ev.Eon").Match(flds["Eon"], b) {
+					c.Fail(rule, key, p.siteOf(ci), shortFn(f), "inserted row", "Eon column is not the event's Eon")
+					continue
+				}
+				n++
+				c.Guard(p, rule, key, call, "InsertEventTriggerRegisteredEvent(row of ev)", b,
+					"$ev.Eon <= "+maxI64, "$ev.ExpirationBlockNumber <= "+maxI64)
+			}
+		}
+	}
+	c.Floor(rule, n, 3)
 }
